@@ -351,10 +351,13 @@ def sites_in(f: FuncInfo) -> List[Dict[str, object]]:
     def _simple(e) -> bool:
         return isinstance(e, (ast.Name, ast.Constant)) or (isinstance(e, ast.Attribute) and dotted(e) is not None)
 
-    envs: List[Tuple[int, Dict[str, ast.AST]]] = []     # (first line of the top-level statement, env valid *before* it)
-    env_: Dict[str, ast.AST] = {}
-    for st_ in f.node.body:
-        envs.append((st_.lineno, dict(env_)))
+    envs: List[Tuple[int, Dict[str, ast.AST]]] = []     # (index of the top-level statement, env valid *before* it)
+    top_of: Dict[int, int] = {}                          # id(node) -> index of its top-level statement (inlined helper statements keep the
+    env_: Dict[str, ast.AST] = {}                        # helper's line numbers, so positions - not lines - order the statements)
+    for idx_, st_ in enumerate(f.node.body):
+        for n_ in ast.walk(st_):
+            top_of[id(n_)] = idx_
+        envs.append((idx_, dict(env_)))
         if isinstance(st_, ast.Assign) and len(st_.targets) == 1 and _key_of(st_.targets[0]) and (_key_of(st_.targets[0]) in params or _key_of(st_.targets[0]).startswith("self.")):
             k_ = _key_of(st_.targets[0])
             v_ = _Fwd(env_).visit(_copy.deepcopy(st_.value))
@@ -390,14 +393,15 @@ def sites_in(f: FuncInfo) -> List[Dict[str, object]]:
             if isinstance(v_, ast.IfExp):
                 none_defaults.pop(k_, None)
 
-    def _env_at(lineno: int) -> Dict[str, ast.AST]:
-        best = {}
-        for ln_, e_ in envs:
-            if ln_ <= lineno:
-                best = e_
-            else:
-                break
-        return best
+    def _env_at(node) -> Dict[str, ast.AST]:
+        i_ = top_of.get(id(node))
+        if i_ is None:
+            # a node assembled here (a distributed conjunction, a negation) from original sub-expressions
+            for n_ in ast.walk(node):
+                if id(n_) in top_of:
+                    i_ = top_of[id(n_)]
+                    break
+        return envs[i_][1] if i_ is not None else {}
     pm_ = parents_map(f.node)
 
     def loops_of(node) -> List[ast.AST]:
@@ -450,7 +454,7 @@ def sites_in(f: FuncInfo) -> List[Dict[str, object]]:
             if extra:
                 m.update(extra)
             x = substitute_locals(e, ldefs)
-            ev_ = _env_at(getattr(e, "lineno", 0)) if hasattr(e, "lineno") else {}
+            ev_ = _env_at(e)
             if ev_:
                 x = _Fwd(ev_).visit(_copy.deepcopy(x))
             if none_defaults and getattr(e, "lineno", 10 ** 9) > 0:
